@@ -77,7 +77,7 @@ def main():
             na.append({"property_id": pid, "reason": NOT_YET.get(pid, "not claimed yet: the Lean model and correspondence harness for this property are still under construction (see DESIGN.md Appendix D); it is intended to be decided by Lean 4 proof")})
     m = {
         "version": 1,
-        "setup_cmd": "cd /verif/lean && lake build && cd /verif/harness && cargo build --offline --bins",
+        "setup_cmd": "cd /verif && python3 tools/extract.py && cd /verif/lean && lake build && cd /verif/harness && cargo build --offline --bins",
         "hooks": {"guard": "device_driver_verif", "enable": "none needed: every check observes public entry points of the unmodified crates (path dependencies on /repo)",
                   "baseline_off_cmd": "cd /repo && cargo test --workspace --no-fail-fast --offline", "source_commits": [], "add_only": True},
         "engines": [{"name": "ddv", "path": "/verif/check", "serves_properties": [c["property_id"] for c in checks],
